@@ -393,6 +393,8 @@ func crashSignature(log string) string {
 							break
 						}
 					}
+					// the per-node pool shim stands in for chunkPoolFor in simulation builds
+					site = strings.Replace(site, "verifChunkPoolFor", "chunkPoolFor", 1)
 					return "fatal error: out of memory @" + site
 				}
 				if len(l) > 90 {
